@@ -40,6 +40,15 @@ def detorderCase (id : String) (payload : List Sexp) : List String :=
       | none => "fatal"
     both id [("pathparams", "|".intercalate (uniqSorted results)), ("exit", if r == "fatal" then "fail" else "0")]
       [("pathparams", r), ("exit", if r == "fatal" then "fail" else "0")] "WF"
+  | .atom "gather" :: rest =>
+    -- `(detorder gather (files (name field…) …))`: what each file of the directory contributes for the parameter struct
+    let p := Sexp.list (.atom "p" :: rest)
+    let fs : Entries String (List String) := ((p.field? "files").map Sexp.args |>.getD []).filterMap (fun d => match d with
+      | .list (.atom n :: xs) => some (n, xs.filterMap Sexp.asAtom?)
+      | _ => none)
+    let results := (perms fs).map (fun o => ",".intercalate (gather o))
+    let n := (fs.filter (fun e => !e.2.isEmpty)).length
+    both id [("variants", toString (uniqSorted results).length)] [("variants", "1")] (if n ≤ 1 then "WF" else "F_structTwice")
   | .atom "msg" :: rest =>
     let p := Sexp.list (.atom "p" :: rest)
     let _n := (atoms (p.field? "files")).length
